@@ -67,7 +67,7 @@ func main() {
 	defer n.Close()
 	k, a := stack.KeyFromSeed(600), stack.KeyFromSeed(601)
 	var arb []*stack.Key
-	for i := 0; i < 5; i++ {
+	for i := 0; i < 38; i++ {
 		arb = append(arb, stack.KeyFromSeed(uint64(610+i)))
 	}
 	parent := n.Genesis()
@@ -158,7 +158,7 @@ func main() {
 		}
 		progKeys := keys
 		if rep.Str(c, "prog") == "other" {
-			progKeys = append([]*stack.Key{arb[4]}, keys...) // a key that is not a listed signer
+			progKeys = append([]*stack.Key{arb[37]}, keys...) // a key that is not a listed signer
 		}
 		hash := usedHash
 		if !rep.Bool(c, "used") {
